@@ -26,14 +26,15 @@ def frozen():
 
 def collect(ctx):
     out = {}
+    new_fns = set(getattr(ctx.facts, 'new_fns', ()) or ())
     for d in sorted(ctx.facts.body_defs()):
         if '__CALLSITE' in d or not d.lstrip('<').startswith(('server::', 'iggy::')):
             continue
         b = ctx.body(d)
         seen = {}
         for c in b.calls:
-            if not is_user_call(c) or not c.args or c.name.endswith(SKIP):
-                continue
+            if not is_user_call(c) or not c.args or c.name.endswith(SKIP) or c.name in new_fns:
+                continue   # (a helper that did not exist on the pinned tree has no history to be compared with)
             form = ', '.join(canon(b.pexpr_operand(a, 0, frozenset(), (c.bb, 't')), 0, 2) for a in c.args)
             if len(form) < 6:
                 continue
